@@ -21,9 +21,30 @@ FAILING = {"inputs": [["Root", [{"***": 1, "ok": 2}]]], "cmps": [["percent", 7, 
                    "preamble": None}}
 
 
+def failing_nested_pair(rng):
+    """a nested-layout generation with a model shared by sibling classes (so that reference paths are injected) that
+    raises inside code generation, followed by the flat generation of the same data without the offending key"""
+    from .. import gen as _gen
+    ks = rng.sample(_gen.WORDS, k=4)
+    item = {k: 1 for k in ks}
+    good = {"first": {"item": dict(item), "n": 1}, "second": {"item": dict(item), "m": "x"}}
+    bad = dict(good)
+    bad["***"] = 1
+    cmps = [["percent", 7, 10], ["number", 10]]
+    job = common.gen_job(rng, layout="nested")
+    job["preamble"] = None
+    job2 = dict(job, layout="flat")
+    return [{"inputs": [["Root", [bad]]], "cmps": cmps, "job": job, "tree": None},
+            {"inputs": [["Root", [good]]], "cmps": cmps, "job": job2, "tree": None}]
+
+
 def gen_history(rng):
     n = rng.randint(2, 4)
     hist = []
+    if rng.random() < 0.12:
+        hist.extend(failing_nested_pair(rng))
+        if rng.random() < 0.5:
+            return hist
     for i in range(n):
         r = rng.random()
         reusable = [j for j, c in enumerate(hist) if c.get("reuse") is None and c is not FAILING and c.get("tree") is not None]
@@ -109,7 +130,7 @@ def falsify(ctx):
     #     a difference caused by that sharing would itself be a C14 violation and shows up as a mismatch below
     k = 0
     for h, res in zip(hists, in_hist):
-        ctx.case(repr(h), nontrivial=len(h) >= 2 and any(c.get("reuse") is not None or c["inputs"] == FAILING["inputs"] for c in h))
+        ctx.case(repr(h), nontrivial=len(h) >= 2 and any(c.get("reuse") is not None or "***" in repr(c["inputs"]) for c in h))
         for c, got in zip(h, res):
             want = alone[k]
             k += 1
